@@ -90,7 +90,7 @@ def _template(w):
         if na == nb and not any(p[0] in ("rep", "replist") for p in a + b):
             # same number of lines on both branches: keep the longer spelling
             return a if len(a) >= len(b) else b
-        return [("alt",)]
+        return [("alt", na, nb)]
 
     def run(stmts):
         for st in stmts:
@@ -184,14 +184,15 @@ def run(prog: Program, res: Result, tier: str) -> None:
                          "the string built by xyz_str could not be followed")
         tmpl = []
     reps = [p for p in tmpl if p[0] == "rep"]
-    header = 0
+    headers = {0}           # possible numbers of header lines, per path
     for p in tmpl:
         if p[0] == "rep":
             break
         if p[0] == "lit":
-            header += p[1].count("\n")
+            headers = {h + p[1].count("\n") for h in headers}
         elif p[0] == "alt":
-            header = -1000 if header >= 0 else header
+            headers = {h + k for h in headers for k in p[1:]}
+    header = sorted(headers)[0] if len(headers) == 1 else sorted(headers)
     load = None
     for n in ast.walk(r.node):
         if isinstance(n, ast.Call) and call_name(n) in ("np.loadtxt",
@@ -208,7 +209,7 @@ def run(prog: Program, res: Result, tier: str) -> None:
     inst = f"header lines written ({header}) == skiprows ({skip})"
     if tmpl and len(reps) == 1 and header == skip:
         res.ok("X-FORMAT", inst, w.loc())
-    elif tmpl and len(reps) == 1 and header >= 0 and skip is not None:
+    elif tmpl and len(reps) == 1 and skip is not None:
         res.bad("X-FORMAT", f"header {header} vs skiprows {skip}", r.loc(load),
                 f"{inst}: the reader skips a different number of lines than "
                 "the writer emits", instance=inst)
